@@ -152,7 +152,7 @@ func (f Int[T]) Div(value Int[T]) Int[T] {
 
 // Mod returns the remainder after subtracting all full multiples of the passed-in value.
 func (f Int[T]) Mod(value Int[T]) Int[T] {
-	return f - (value.Mul(f.Div(value).Trunc()))
+	return f % value
 }
 
 // Abs returns the absolute value of this value.
